@@ -102,7 +102,13 @@ struct Uni final : IUni {
             switch (slot % 3) {
                 case 0: handles.push_back(obs.subscribe([this, cell](T v) { log.push_back(std::to_string(cell->id) + "(" + showV(v) + ")"); })); break;
                 case 1: handles.push_back(obs.subscribe([this, cell](const T &v) { log.push_back(std::to_string(cell->id) + "(" + showV(v) + ")"); })); break;
-                default: handles.push_back(obs.subscribe([this, cell](T &v) { log.push_back(std::to_string(cell->id) + "(" + showV(v) + ")"); })); break;
+                default:
+                    // a mutable-reference parameter only where the Observable's subject type accepts such an observer
+                    if constexpr (requires(O &o, void (*f)(T &)) { o.subscribe(f); })
+                        handles.push_back(obs.subscribe([this, cell](T &v) { log.push_back(std::to_string(cell->id) + "(" + showV(v) + ")"); }));
+                    else
+                        handles.push_back(obs.subscribe([this, cell](const T &v) { log.push_back(std::to_string(cell->id) + "(" + showV(v) + ")"); }));
+                    break;
             }
             cell->id = handles.back().getId();
             return "h=" + std::to_string(slot) + " id=" + std::to_string(cell->id);
